@@ -101,14 +101,51 @@ def exc_fail(exc: BaseException, op: str = "") -> Fail:
     return Fail(f"EXC:{type(exc).__name__}", (op + "@" if op else "") + site, f"{type(exc).__name__}: {exc}"[:400])
 
 
+# results returned by the last few library calls of the current case, with a private copy of their arrays: a later call must
+# not change them (results that share a scratch buffer, a cache entry handed out without a copy, ...). Checked in call().
+_RECENT: list = []
+_RECENT_MAX = 6
+
+
+def reset_recent() -> None:
+    _RECENT.clear()
+
+
+def _result_arrays(r, depth=0):
+    import numpy as _np
+
+    if isinstance(r, _np.ndarray):
+        return [r] if r.size <= 4096 else []
+    arr = getattr(r, "array", None)
+    if isinstance(arr, _np.ndarray):
+        return [arr] if arr.size <= 4096 else []
+    if isinstance(r, (list, tuple)) and depth < 2 and len(r) <= 8:
+        return [x for e in r for x in _result_arrays(e, depth + 1)]
+    return []
+
+
 def call(op: str, f: Callable, *a, **k):
-    """Call library code; returns (value, None) or (None, Fail)."""
+    """Call library code; returns (value, None) or (None, Fail). An earlier result of the same case that changed during this
+    call is reported as a failure of this call."""
+    import numpy as _np
+
     try:
-        return f(*a, **k), None
+        r = f(*a, **k)
     except Skip:
         raise
     except Exception as e:  # noqa: BLE001
         return None, exc_fail(e, op)
+    for prev_op, arrays, copies in ([] if os.environ.get("VERIF_NO_RECENT_GUARD") else _RECENT):  # switch: sensitivity experiments only
+        for x, c in zip(arrays, copies):
+            if x.shape != c.shape or x.dtype != c.dtype or not _np.array_equal(x, c, equal_nan=(x.dtype.kind in "fc")):
+                _RECENT.clear()
+                return None, Fail("MISMATCH", f"earlier-result-changed-by-later-call:{prev_op.split(':')[0]}->{op.split(':')[0]}", f"result of {prev_op} changed during {op}")
+    arrays = _result_arrays(r)
+    if arrays:
+        _RECENT.append((op, arrays, [x.copy() for x in arrays]))
+        if len(_RECENT) > _RECENT_MAX:
+            _RECENT.pop(0)
+    return r, None
 
 
 # ----------------------------------------------------------------------------------------------- laws
@@ -145,6 +182,7 @@ def _normalise(res: Any, case: Any) -> list:
 
 def run_case(law: Law, case: Any) -> tuple[str, list]:
     """-> ('ok'|'skip'|'fail', [Fail...]) for one non-batch case."""
+    reset_recent()
     try:
         res = law.run(case)
     except Skip:
